@@ -1,6 +1,7 @@
 package main
 
 import (
+	"strconv"
 	"go/types"
 	"encoding/json"
 	"flag"
@@ -243,7 +244,13 @@ func solveAll(frs []*FuncResult, timeoutS int, confirm bool, tmpdir string) {
 		sem <- true
 		go func(j job) {
 			defer wg.Done()
-			j.fr.Gen.discharge(&j.fr.Obls[j.i], timeoutS, tmpdir, confirm)
+			t := timeoutS
+			if j.fr.Contract != nil { // `opt timeout N`: a function whose obligations are known to need longer
+				if n, err := strconv.Atoi(j.fr.Contract.Opt("timeout")); err == nil && n > 0 {
+					t = t * n / 20
+				}
+			}
+			j.fr.Gen.discharge(&j.fr.Obls[j.i], t, tmpdir, confirm)
 			<-sem
 		}(j)
 	}
